@@ -11,6 +11,7 @@ import torch
 
 from vf.common import Obs, sub_seed, WarnLog, HarnessBug
 from vf import gen
+from vf import c05_extra as cx
 
 LEVEL = "exploration"
 TECHNIQUE = ("runtime reference-model monitor: returned eigen/singular pairs re-inserted into the dense shadow of the operators "
@@ -22,7 +23,11 @@ LEVEL_TEXT = ("Held on every generated problem of the run: methods {default, exa
               "uppermost, upper-case spellings, lsymeig/usymeig} x designed generalised spectra {separated, clustered 1e-5/1e-6, exactly "
               "degenerate groups straddling or inside the cut, all-negative, all-positive, free} x {float64, complex128 on dense paths}; "
               "svd over tall/wide/square operators, k in 1..min(m,n). Bounds: n<=10 dense / <=40 davidson (quick), <=80 (thorough), "
-              "cond(M)<=10, |eig|<=~20, sigma in [0.1,10].")
+              "cond(M)<=10, |eig|<=~20, sigma in [0.1,10]. "
+              "Also: A and M of different dtype on the dense methods (complex128 A + float64 M, float64 A + complex128 M); svd of "
+              "rank-deficient and cond-1e7 operators (p<=6, dense methods) for the clauses that the Gram route can meet - the statement's "
+              "clauses for the triplets of zero / tiny singular values are a listed finding; directed identity-start witnesses of the listed "
+              "davidson misconvergence.")
 LEVEL_NOTE = ("Trusts scipy.linalg.eigh (LAPACK sygvd/hegvd) and torch.linalg.svdvals on the dense shadow; tolerances are "
               "C*eps*n*|A|*cond(M) for dense paths and 10*sqrt(n)*min_eps for davidson (its own stopping test), see ASSUMPTIONS. "
               "Only generated inputs are decided; davidson exits through the full subspace in ~85% of the generated problems (n<=80).")
@@ -31,6 +36,9 @@ RULE = ("seeded sampling over method x M x operator kind x batch pattern x n x n
         "every clause was evaluated, n>=2 (svd: min(m,n)>=2) and, for davidson, the subspace was expanded at least once "
         "(>=2 Rayleigh-Ritz steps counted at the internal slicing function)")
 RULE += ('; 40% of the square svd operators are Hermitian-flagged with an indefinite spectrum')
+RULE += ("; descriptors with 'mixdtype' (group 'symeig', dense methods): A and M of different dtype (complex128 A + float64 M with designed "
+         "spectra, float64 A + complex128 M with free spectra); group 'svd_lowrank': rank-deficient and cond-1e7 operators x shape x dense "
+         "method x dtype x k selection; group 'weakcoupled': directed identity-start witnesses of the listed davidson misconvergence")
 MIN_NONTRIVIAL = {"quick": 4000, "thorough": 80000}
 ASSUMPTIONS = [
     "M = Q diag(mu) Q^H with mu in [1, kappa_M], kappa_M <= 10; generalised eigenvalues designed in [-20, 20]",
@@ -48,6 +56,13 @@ ASSUMPTIONS = [
     "svd: sigma_min in {0.1, 0.5, 1}, cond <= 10 (rank-deficient input not generated: documented as the naive A^H A route); tolerances "
     "2000*eps*max(m,n)*|A|*cond (values, A v = s u), *cond^2 for the factor recovered as A v / s and the reconstruction; davidson adds "
     "10*sqrt(p)*1e-6 / sigma_min (values, A v) and / sigma_min^2 (recovered factor, reconstruction)",
+    "A and M of different dtype (dense methods only): complex128 A + float64 SPD M (designed spectra) and float64 A + complex128 Hermitian PD "
+    "M (free spectra); reference = scipy.linalg.eigh of both matrices promoted to complex128; same tolerances as the dense paths",
+    "svd_lowrank: singular values {0 (rank-deficient) or 1e-7..6e-7 (ill-conditioned)} x smax + {0.1..1} x smax, smax in {0.3, 1, 5}, "
+    "p <= 6, dense methods; asserted: |s^2 - sigma^2| <= 2000 eps max(m,n) smax^2, eigen-side factor orthonormal to 2000 eps max(m,n), "
+    "derived-factor columns of sigma >= 0.05 smax orthonormal to 400x and A v = s u to 20x smax x that, reconstruction to 10x smax x "
+    "that; the statement's clauses for the triplets of the small singular values (derived factor orthonormal, A v = s u, values to "
+    "2000 eps max(m,n) smax) are reported under svd_orth / svd_Av / svd_vals :rankdef|illcond (listed finding)",
     "configuration classes carried in the mechanism keys (decided by spies, not by values of the result): ':illcondqr' = the internal "
     "Cholesky/Householder QR of davidson received a block whose column-scaled Gram matrix has an eigenvalue < 1e-6; ':misconverged' = "
     "davidson met its residual test (exit before the subspace was full) on M-orthonormal genuine eigenpairs that are all among the "
@@ -59,12 +74,14 @@ REQUIRED_COUNTERS = {
               "davidson_exit_fullspace": 800, "davidson_illcond_qr": 10, "tallqr_with_M": 400, "cut_straddles_group": 300,
               "slice_lowest": 900, "slice_uppest": 900, "svd_tall": 150, "svd_wide": 150, "svd_square": 150, "svd_hermitian_indefinite": 80, "svd_full_k": 300,
               "with_M": 1000, "complex_cases": 600, "batched_M_larger_than_A": 80, "groups_compared": 10000,
-              "groups_cut_or_unisolated": 800},
+              "groups_cut_or_unisolated": 800, "mixdtype_cA_rM": 150, "mixdtype_rA_cM": 150, "svd_rankdef": 60, "svd_illcond": 60,
+              "svd_lowrank_small_triplets_returned": 100, "weakcoupled_cases": 4},
     "thorough": {"path_exacteig": 30000, "path_custom_exacteig": 10000, "path_davidson": 18000, "davidson_exit_converged": 1500,
                  "davidson_exit_fullspace": 16000, "davidson_illcond_qr": 200, "tallqr_with_M": 8000, "cut_straddles_group": 6000,
                  "slice_lowest": 18000, "slice_uppest": 18000, "svd_tall": 3000, "svd_wide": 3000, "svd_square": 3000, "svd_hermitian_indefinite": 1600,
                  "svd_full_k": 6000, "with_M": 20000, "complex_cases": 12000, "batched_M_larger_than_A": 1500,
-                 "groups_compared": 200000, "groups_cut_or_unisolated": 16000},
+                 "groups_compared": 200000, "groups_cut_or_unisolated": 16000, "mixdtype_cA_rM": 7000, "mixdtype_rA_cM": 7000,
+                 "svd_rankdef": 600, "svd_illcond": 600, "svd_lowrank_small_triplets_returned": 1500, "weakcoupled_cases": 4},
 }
 
 EPS = 2.220446049250313e-16
@@ -177,6 +194,9 @@ def cases(seed, tier):
         # square operators: every third one is Hermitian (and flagged so) with an INDEFINITE spectrum - its singular values are |eigenvalues|
         d["herm"] = bool(shape == "square" and rng.random() < 0.4)
         out.append(d)
+    out.extend(cx.mix_cases(seed, tier, sub_seed, MODES, SPECS, OPKINDS_A, OPKINDS_M, FULL_A_PAIRS, ALL_PAIRS))
+    out.extend(cx.lowrank_cases(seed, tier, sub_seed))
+    out.extend(cx.weak_cases(seed, tier, sub_seed))
     return out
 
 
@@ -258,8 +278,14 @@ def build_pair(desc, rng, tgen, dt):
         BM = ()
     rdt = torch.float64
     M = None
+    dtM = dt
+    if desc.get("mixdtype"):
+        # A and M of different dtype: dt (the common dtype) is complex128; the designed A = L Q diag(lam) Q^H L^H is complex
+        dt, dtM = cx.MIX_DTYPES[desc["mixdtype"]]
+        if dt != torch.complex128 and desc["spec"] != "free":
+            raise HarnessBug("a real A in a complex metric has no designed generalised spectrum")
     if withM:
-        M = gen.make_matrix("spd", n, BM, dt, desc["kappaM"], rng, tgen)
+        M = gen.make_matrix("spd", n, BM, dtM, desc["kappaM"], rng, tgen)
     spec = desc["spec"]
     info = {"straddled": False}
     if spec == "free":
@@ -287,7 +313,7 @@ def build_pair(desc, rng, tgen, dt):
         lam = torch.tensor(vals, dtype=rdt).to(dt)
         core = (q * lam) @ q.transpose(-2, -1).conj()
         if Mfull is not None:
-            L = torch.linalg.cholesky(Mfull[b])
+            L = torch.linalg.cholesky(Mfull[b]).to(dt)
             core = L @ core @ L.transpose(-2, -1).conj()
         mats.append(herm(core))
     A = torch.stack(mats).reshape(*BA, n, n) if BA else mats[0]
@@ -448,8 +474,14 @@ def run_symeig(desc, obs):
         obs.nontrivial = True
         return
     mname = method or "default"
-    mtag = "M" if withM else "noM"
+    mtag = ("M" + cx.mix_tag(desc)) if withM else "noM"
     modetag = "lowest" if low else "uppest"
+    if desc.get("mixdtype"):
+        # the operators keep their own dtypes; the dense shadows used by the oracle are promoted to the common dtype
+        obs.count("mixdtype_%s" % desc["mixdtype"])
+        if A.dtype == M.dtype or Aop.dtype == Mop.dtype:
+            raise HarnessBug("mixed-dtype case built with equal dtypes")
+        A, M = A.to(dt), M.to(dt)
     key0 = "%s:%s:%s" % (mname, mtag, modetag)
     opts = {}
     min_eps = 1e-6
@@ -819,6 +851,12 @@ def run_case(desc):
     obs = Obs(desc)
     if desc["group"] == "decoupled":
         run_decoupled(desc, obs)
+        return obs.result()
+    if desc["group"] == "svd_lowrank":
+        cx.run_lowrank(desc, obs, reach_spies, new_log, count_reach)
+        return obs.result()
+    if desc["group"] == "weakcoupled":
+        cx.run_weak(desc, obs, reach_spies, new_log, count_reach, _matches_neighbours)
         return obs.result()
     if desc["group"] == "symeig":
         run_symeig(desc, obs)
